@@ -677,6 +677,29 @@ func translateUnit(l *loader, unit *Unit) (text string, err error) {
 			u.packageVar(nil, v)
 		case "block":
 			u.blockItem(it)
+		case "methodset":
+			// every method of the named type must be listed (and exist): a new method is code that reaches the state
+			// without being translated, so the tie would silently cover less than it says
+			obj := p.pkg.Scope().Lookup(it.Name)
+			tn, ok := obj.(*types.TypeName)
+			if !ok {
+				u.fail(nil, "type %s not found in package %s", it.Name, p.path)
+			}
+			named := tn.Type().(*types.Named)
+			want := map[string]bool{}
+			for _, m := range strings.Fields(it.Methods) {
+				want[m] = true
+			}
+			for i := 0; i < named.NumMethods(); i++ {
+				m := named.Method(i)
+				if !want[m.Name()] {
+					u.fail(u.findDecl(m), "type %s has a method %s that is not among the translated ones (%s)", it.Name, m.Name(), it.Methods)
+				}
+				delete(want, m.Name())
+			}
+			for m := range want {
+				u.fail(nil, "type %s no longer has the method %s", it.Name, m)
+			}
 		default:
 			return "", fmt.Errorf("unit %s: unknown item kind %q", unit.Name, it.Kind)
 		}
